@@ -34,6 +34,7 @@ func TestRegressInactiveProofsShortOfTheirFees(t *testing.T) {
 		{Fees: []uint{250, 2000, 0}, Amounts: [][]uint64{{1, 1, 8, 16, 32, 64, 512}, {2, 16, 256}, {1}}, Amount: 901, IncludeFees: false},
 	} {
 		sp.CaseSeed = uint64(i)
+		sp.RestartFee = -1
 		rec.NonTrivial(fmt.Sprint("regress_inactive_short_of_fees_", i))
 		sendCase(tbT{t}, sp)
 	}
